@@ -122,6 +122,11 @@ def c10_vocab(run):
     run.min_instances('RF22', 1)
 
 
+def c17_rf2(run):
+    rf_alloc.rf2(run)
+    run.min_instances('RF2', 300)
+
+
 def c17_rf4(run):
     rf_code.rf4(run)
     run.min_instances('RF4', 15)
@@ -226,5 +231,5 @@ PLAN = {
     'C20': [c20_rf8, c20_rf6, c20_rf21, c20_rf7h],
     'C15': [c15_rf17, c15_rf16h, c15_rf7b],
     'C18': [c18_rf5],
-    'C17': [c17_rf1, c17_rf3, c17_rf4],
+    'C17': [c17_rf1, c17_rf2, c17_rf3, c17_rf4],
 }
